@@ -142,7 +142,7 @@ def c07_positions():
         body = [I("LOAD_CONST", Constant(v), line_number=1), I("RETURN_VALUE", line_number=1)]
         out.append(("operand:int beyond the decimal conversion limit:%s" % lab, mk([body]), ["constant-operand"]))
         out.append(("additional:int beyond the decimal conversion limit:%s" % lab, mk([[I("LOAD_CONST", Constant(None), line_number=1), I("RETURN_VALUE", line_number=1)]], _additional_args=(Constant(v, 1),)), ["constant-additional"]))
-    for s in ["", "plain", "caf\u00e9 \U0001F600", "\ud800", "a\udfffb", "quote\"back\\slash\nnewline", "\x00\x7f"]:
+    for s in ["", "plain", "caf\u00e9 \U0001F600", "\ud800", "a\udfffb", "'\ud800'", '\ud800"', "\udc80\\", "''\ud800", "quote\"back\\slash\nnewline", "\x00\x7f"]:
         sur = ["lone-surrogate-string-outside-constants"] if _has_surrogate(s) else []
         body = [I("LOAD_CONST", Constant(None), line_number=1), I("RETURN_VALUE", line_number=1)]
         out.append(("docstring:%r" % s, mk([body], type=Function(Args(), s)), ["pos:docstring"] + sur))
